@@ -1,3 +1,4 @@
+import BalmProofs.JudgeExact
 import BalmProofs.SubgraphSpec
 import Balm.DepthAlgo
 import BalmProofs.JudgeSpec
